@@ -25,26 +25,32 @@ a == <<97>>  b == <<98>>  sp == <<32>>  hash == <<35>>  eacute == <<233>>
 ab == <<97, 98>>  ac == <<97, 99>>  cc == <<99>>  ea == <<233, 97>>  qq == <<113>>
 
 \* ---- slices ------------------------------------------------------------------------
+\* A slice named x<name> is the slice <name> read with the grammar-extras feature on (native one-or-more,
+\* PUSH_LITERAL, node tags); "xtag" exists only there.
+XOf == [xcore |-> "core", xws |-> "ws", xcounted |-> "counted", xpushws |-> "pushws", xrestore |-> "restore",
+        xfactor |-> "factor", xstack |-> "stack", xtag |-> "xtag"]
+Extras == Slice \in DOMAIN XOf
+BaseSlice == IF Extras THEN XOf[Slice] ELSE Slice
 Cfg ==
-  CASE Slice = "skip" ->
+  CASE BaseSlice = "skip" ->
         [leaves |-> {}, unary |-> {}, binary |-> {}, size |-> 3,     \* size = max number of alternatives
          tyM    |-> {"@", "", "$"},
          aux    |-> { [ty |-> "", e |-> Bin("alt", S(b), S(cc))], [ty |-> "_", e |-> S(b)] },
          ws     |-> {"none"},  cm |-> {"none"},
          sigma  |-> {97, 98, 99, 233},  len |-> 4]
-    [] Slice = "factor" ->
+    [] BaseSlice = "factor" ->
         [leaves |-> {}, unary |-> {}, binary |-> {}, size |-> 1,
          tyM    |-> {"", "_", "@", "$", "!"},
          aux    |-> { [ty |-> "", e |-> S(a)], [ty |-> "_", e |-> Bin("seq", S(a), S(b))] },
          ws     |-> {"none", "_"},  cm |-> {"none"},
          sigma  |-> {97, 98, 32},  len |-> 5]
-    [] Slice = "restore" ->
+    [] BaseSlice = "restore" ->
         [leaves |-> {}, unary |-> {}, binary |-> {}, size |-> 1,
          tyM    |-> {"", "@"},
          aux    |-> { [ty |-> "", e |-> Bin("seq", Id("POP"), S(qq))], [ty |-> "_", e |-> Bin("seq", Un("push", S(b)), S(qq))] },
          ws     |-> {"none"},  cm |-> {"none"},
          sigma  |-> {97, 98, 113},  len |-> 5]
-    [] Slice = "shadow" ->   \* user rules named like non-keyword built-ins (see GOf)
+    [] BaseSlice = "shadow" ->   \* user rules named like non-keyword built-ins (see GOf)
         [leaves |-> {Id("ASCII_DIGIT"), Id("NEWLINE"), Id("ASCII_ALPHA"), Id("LETTER"), S(a), Id("r1")},
          unary  |-> {"opt", "rep", "not"},
          binary |-> {"seq", "alt"},
@@ -53,13 +59,22 @@ Cfg ==
          aux    |-> { [ty |-> "", e |-> Id("ASCII_DIGIT")] },
          ws     |-> {"none"},  cm |-> {"none"},
          sigma  |-> {97, 49, 113, 10},  len |-> 3]
-    [] Slice = "pushws" ->   \* PUSH of composite expressions where implicit whitespace applies
+    [] BaseSlice = "pushws" ->   \* PUSH of composite expressions where implicit whitespace applies
         [leaves |-> {}, unary |-> {}, binary |-> {}, size |-> 1,
          tyM    |-> {"", "@", "!"},
          aux    |-> { [ty |-> "@", e |-> Un("rep1", S(a))] },
          ws     |-> {"_", ""},  cm |-> {"none"},
          sigma  |-> {97, 98, 32},  len |-> 5]
-    [] Slice = "core" ->
+    [] BaseSlice = "xtag" ->    \* grammar-extras only: tags, PUSH_LITERAL and the native one-or-more in every position
+        [leaves |-> {S(a), Id("r1"), [t |-> "pushlit", s |-> b], Id("POP"), Id("PEEK")},
+         unary  |-> {"opt", "rep", "rep1", "not", "tagt", "push"},
+         binary |-> {"seq", "alt"},
+         size   |-> 3,
+         tyM    |-> {"", "@"},
+         aux    |-> { [ty |-> "", e |-> Bin("alt", S(b), S(a))] },
+         ws     |-> {"none", "_"},  cm |-> {"none"},
+         sigma  |-> {97, 98, 32},  len |-> 3]
+    [] BaseSlice = "core" ->
         [leaves |-> {S(a), S(b), Id("ANY"), Id("EOI"), Id("r1"), S(<<>>)},
          unary  |-> {"opt", "rep", "rep1", "not", "and"},
          binary |-> {"seq", "alt"},
@@ -68,7 +83,7 @@ Cfg ==
          aux    |-> { [ty |-> "", e |-> Bin("seq", S(a), Un("opt", S(b)))] },
          ws     |-> {"none"},  cm |-> {"none"},
          sigma  |-> {97, 98, 233},  len |-> 3]
-    [] Slice = "ws" ->
+    [] BaseSlice = "ws" ->
         [leaves |-> {S(a), S(b), Id("r1"), Id("EOI")},
          unary  |-> {"opt", "rep", "rep1", "not"},
          binary |-> {"seq", "alt"},
@@ -77,7 +92,7 @@ Cfg ==
          aux    |-> { [ty |-> t, e |-> Bin("seq", S(a), S(b))] : t \in {"", "@", "$", "!"} },
          ws     |-> {"", "_", "@", "$", "!"},  cm |-> {"none", "_", "!"},
          sigma  |-> {97, 98, 32, 35},  len |-> 3]
-    [] Slice = "stack" ->
+    [] BaseSlice = "stack" ->
         [leaves |-> {S(a), Id("POP"), Id("PEEK"), Id("DROP"), Id("PEEK_ALL"), Id("POP_ALL"),
                      Un("push", S(a)), Un("push", Id("ANY")),
                      [t |-> "peek", lo |-> 0, hi |-> 1, open |-> FALSE],
@@ -89,7 +104,7 @@ Cfg ==
          aux    |-> { [ty |-> "", e |-> S(a)] },
          ws     |-> {"none"},  cm |-> {"none"},
          sigma  |-> {97, 98},  len |-> 4]
-    [] Slice = "counted" ->
+    [] BaseSlice = "counted" ->
         [leaves |-> {S(a), S(b), Id("r1")},
          unary  |-> {"exact2", "min1", "max2", "minmax12", "rep1", "opt"},
          binary |-> {"seq", "alt"},
@@ -98,7 +113,7 @@ Cfg ==
          aux    |-> { [ty |-> "", e |-> S(a)] },
          ws     |-> {"none", "_"},  cm |-> {"none"},
          sigma  |-> {97, 98, 32},  len |-> 4]
-    [] Slice = "builtin" ->
+    [] BaseSlice = "builtin" ->
         [leaves |-> {Id("ANY"), Id("SOI"), Id("EOI"), Id("ASCII_DIGIT"), Id("ASCII_ALPHA"), Id("NEWLINE"),
                      Id("ASCII_HEX_DIGIT"), [t |-> "ins", s |-> <<97, 66>>], [t |-> "range", lo |-> 97, hi |-> 233],
                      S(eacute)},
@@ -148,6 +163,10 @@ RestoreExprs ==
                 Id("PEEK_ALL"), [t |-> "peek", lo |-> 0, hi |-> 2, open |-> FALSE] }
       W(f) == { Un("opt", f), Bin("alt", f, S(b)), Un("rep", f), Bin("alt", f, Id("POP")),
                 Un("opt", Bin("alt", S(qq), f)) }
+              \cup (IF Extras     \* the absorbing operators under the constructs that exist only with grammar-extras
+                    THEN { Un("rep1", Bin("alt", f, S(b))), [t |-> "tag", a |-> Bin("alt", f, S(b)), tag |-> "t"],
+                           [t |-> "tag", a |-> Un("opt", f), tag |-> "t"], Bin("seq", Un("rep1", Bin("alt", f, S(b))), S(b)) }
+                    ELSE {})
       Post == { Id("PEEK_ALL"), Bin("seq", Id("POP"), Id("POP")), [t |-> "peek", lo |-> 0, hi |-> 1, open |-> FALSE],
                 Bin("seq", Id("DROP"), Id("DROP")), Id("POP_ALL") }
   IN UNION { { Bin("seq", pre, Bin("seq", w, post)) : pre \in Pre, w \in W(f), post \in Post } : f \in F }
@@ -165,6 +184,7 @@ MkUn(op, x) ==
     [] op = "min1"     -> [t |-> "min", a |-> x, n |-> 1]
     [] op = "max2"     -> [t |-> "max", a |-> x, n |-> 2]
     [] op = "minmax12" -> [t |-> "minmax", a |-> x, m |-> 1, n |-> 2]
+    [] op = "tagt"     -> [t |-> "tag", a |-> x, tag |-> "t"]
     [] OTHER           -> Un(op, x)
 
 RECURSIVE ExprsOfSize(_)
@@ -177,16 +197,16 @@ ExprsOfSize(n) ==
 MaxSize == IF SizeOverride > 0 THEN SizeOverride ELSE Cfg.size
 MaxLen == IF LenOverride > 0 THEN LenOverride ELSE Cfg.len
 Exprs == CASE Slice = "skip"   -> SkipExprs(MaxSize)
-           [] Slice = "factor" -> FactorExprs
-           [] Slice = "restore" -> RestoreExprs
-           [] Slice = "pushws" -> PushWsExprs
+           [] BaseSlice = "factor" -> FactorExprs
+           [] BaseSlice = "restore" -> RestoreExprs
+           [] BaseSlice = "pushws" -> PushWsExprs
            [] OTHER -> UNION { ExprsOfSize(n) : n \in 1..MaxSize }
 
 \* WHITESPACE / COMMENT bodies: a literal, or (wb = "rule") a call of a non-silent helper rule, which
 \* makes the difference between @ and $ skip rules observable
 WsRule(ty, wb) == [ty |-> ty, e |-> IF wb = "rule" THEN Id("w1") ELSE S(sp)]
 CmRule(ty, wb) == [ty |-> ty, e |-> IF wb = "rule" THEN Bin("seq", S(hash), Un("opt", Id("w2"))) ELSE S(hash)]
-WBodies == IF Slice = "ws" THEN {"lit", "rule"} ELSE {"lit"}
+WBodies == IF BaseSlice = "ws" THEN {"lit", "rule"} ELSE {"lit"}
 
 Grammars ==
   { [m |-> [ty |-> tm, e |-> e], r1 |-> aux, ws |-> w, cm |-> c, wb |-> wb] :
@@ -198,7 +218,7 @@ Shadows == [ASCII_DIGIT |-> [ty |-> "", e |-> S(<<113>>)],          \* ASCII_DIG
             ASCII_ALPHA |-> [ty |-> "@", e |-> S(<<49>>)],
             LETTER      |-> [ty |-> "", e |-> S(<<49>>)]]
 GOf(x) ==
-  LET base == IF Slice = "shadow" THEN [m |-> x.m, r1 |-> x.r1] @@ Shadows ELSE [m |-> x.m, r1 |-> x.r1]
+  LET base == IF BaseSlice = "shadow" THEN [m |-> x.m, r1 |-> x.r1] @@ Shadows ELSE [m |-> x.m, r1 |-> x.r1]
       h    == IF x.wb = "rule" THEN base @@ [w1 |-> [ty |-> "", e |-> S(sp)], w2 |-> [ty |-> "", e |-> S(a)]] ELSE base
       w    == IF x.ws = "none" THEN h ELSE h @@ [WHITESPACE |-> WsRule(x.ws, x.wb)]
   IN IF x.cm = "none" THEN w ELSE w @@ [COMMENT |-> CmRule(x.cm, x.wb)]
@@ -210,7 +230,7 @@ Inputs == Strings(MaxLen)
 Fuel == 40
 CaseOf(G, start, inp) ==
   [start |-> start, inp |-> inp,
-   exp |-> Outcome(inp, Parse(G, inp, <<>>, FALSE, FALSE, Fuel, start))]
+   exp |-> Outcome(inp, Parse(G, inp, <<>>, Extras, FALSE, Fuel, start))]
 
 \* a cheap deterministic shard key
 TCode == [str |-> 1, ins |-> 2, range |-> 3, id |-> 4, peek |-> 5, seq |-> 6, alt |-> 7, opt |-> 8, rep |-> 9,
